@@ -168,6 +168,13 @@ StageOneLockedRound1 ==
   /\ \E a \in Corr : rs[a].lockedV # Nil /\ rs[a].lockedR = 0 /\ \A b \in Corr \ {a} : rs[b].lockedV = Nil
   /\ \A n \in Corr : rs[n].round = 1 /\ inq[n] = << >>
 NoStageOneLockedRound1 == ~StageOneLockedRound1
+\* stage 1 of fork attacks on lock rules: one node has decided B in round 0, the other correct nodes are locked on B
+\* (round 0), undecided and have moved to round 1 without a proposal
+StageOneDecidedOthersLocked ==
+  \E a \in Corr : /\ rs[a].decision # Nil /\ rs[a].lastCommit.r = 0
+                   /\ \A b \in Corr \ {a} : /\ rs[b].decision = Nil /\ rs[b].lockedV = rs[a].decision /\ rs[b].lockedR = 0
+                                             /\ rs[b].round = 1 /\ rs[b].prop = NoProp /\ rs[b].step = StPropose /\ inq[b] = << >>
+NoStageOneDecidedOthersLocked == ~StageOneDecidedOthersLocked
 NoGoalSplitLockStale == ~GoalSplitLockStale
 NoGoalCommitWithoutBlock == ~GoalCommitWithoutBlock
 NoGoalOneDecidedOthersBehind == ~GoalOneDecidedOthersBehind
